@@ -10,7 +10,7 @@ namespace PM
 /-- `insert_point` tests `can_replace_with(index, index, type)` — the type only.  The insertion of a node `n` of that
     type at the returned position `p` also needs
     * `p` not strictly inside a text child: there `index` is the index of that text child, the test reads "`n` in
-      front of the text", the insertion puts `n` between its two halves (`image? text image`: approved, refused);
+      front of the text", the insertion puts `n` between its two halves (`image? text* image`: approved, refused);
     * the marks of `n` allowed by the parent of `p` (`close` → `check_content`). -/
 def insertGuard (S : Schema) (doc : Node) (p : Nat) (n : Node) : Bool :=
   match doc.resolve p with
